@@ -109,7 +109,7 @@ def make_sequence(alph, codes):
     return s
 
 
-MATRIX_KINDS = ["uniform", "uniform", "negative", "zero", "symmetric", "identity", "ties01", "ties101", "ties22", "big", "positive"]
+MATRIX_KINDS = ["uniform", "uniform", "negative", "zero", "symmetric", "identity", "ties01", "ties101", "ties22", "big", "positive", "huge"]
 
 
 def gen_matrix(rng, k1, k2, kind):
@@ -139,6 +139,11 @@ def gen_matrix(rng, k1, k2, kind):
         m = rng.choice([-2, 2], size=(k1, k2))
     elif kind == "big":
         m = rng.integers(-1000, 1001, size=(k1, k2))
+    elif kind == "huge":
+        # legal int32 scores whose single entries, and sums over a few positions, lie beyond 16 bits
+        m = rng.integers(-60000, 60001, size=(k1, k2))
+        for d in range(min(k1, k2)):
+            m[d, d] = int(rng.integers(30000, 60001))
     else:
         raise ValueError(kind)
     return np.ascontiguousarray(m).astype(np.int64)
@@ -261,6 +266,8 @@ def gen_inputs(rng, ctx, stratum):
     A1 = a1 if K1 == k1 else alphabet(K1, kind1, 2)
     A2 = a2 if K2 == k2 else alphabet(K2, kind2, 3)
     mdtype = str(rng.choice(["int64", "int32", "int16"]))
+    if mkind == "huge" and mdtype == "int16":
+        mdtype = "int32"          # the scores do not fit 16 bits
     return dict(k=(k1, k2), K=(K1, K2), akind=(kind1, kind2), same_alph=same_alph, a=(a1, a2), A=(A1, A2), force64=force64,
                 matrix=matrix, mkind=mkind, mdtype=mdtype, c1=c1, c2=c2, gp=gp, terminal=terminal,
                 local=local, max_number=max_number)
